@@ -73,29 +73,33 @@ Theorem gen_bytes_ssz_bytes_len bs :
   Gen.alloy_bytes_ssz_bytes_len bs = Ok (bytes_len TByteList (VBytes bs)).
 Proof. repeat split; reflexivity. Qed.
 
+(** the dictionary of a parameter type whose encoder is the model's: [T::ssz_append], [T::ssz_bytes_len] *)
+Definition app_of (t : ty) : val -> bytes -> outcome bytes := fun x b => Ok (append t x b).
+Definition len_of (t : ty) : val -> outcome N := fun x => Ok (bytes_len t x).
+
 (** ** [Option<T>], [Arc<T>], [&T] *)
 Theorem gen_option_ssz_append t x buf :
-  Gen.option_ssz_append (append t) (Some x) buf = Ok (append (TOption t) (VSome x) buf) /\
-  Gen.option_ssz_append (append t) None buf = Ok (append (TOption t) VNone buf).
+  Gen.option_ssz_append (app_of t) (Some x) buf = Ok (append (TOption t) (VSome x) buf) /\
+  Gen.option_ssz_append (app_of t) None buf = Ok (append (TOption t) VNone buf).
 Proof. split; reflexivity. Qed.
 
 Theorem gen_option_ssz_bytes_len t x :
   bytes_len t x < usize_max ->
-  Gen.option_ssz_bytes_len (bytes_len t) (Some x) = Ok (bytes_len (TOption t) (VSome x)) /\
-  Gen.option_ssz_bytes_len (bytes_len t) None = Ok (bytes_len (TOption t) VNone).
+  Gen.option_ssz_bytes_len (len_of t) (Some x) = Ok (bytes_len (TOption t) (VSome x)) /\
+  Gen.option_ssz_bytes_len (len_of t) None = Ok (bytes_len (TOption t) VNone).
 Proof.
-  intro H. split; [|reflexivity]. unfold Gen.option_ssz_bytes_len, checked_add. cbn [bytes_len].
+  intro H. split; [|reflexivity]. unfold Gen.option_ssz_bytes_len, len_of, checked_add. cbn [bytes_len bind].
   destruct (bytes_len t x + 1 <=? usize_max) eqn:E; [reflexivity | apply N.leb_gt in E; lia].
 Qed.
 
 Theorem gen_wrap_ssz_append t x buf :
-  Gen.arc_ssz_append (append t) x buf = Ok (append (TWrap t) x buf) /\
-  Gen.ref_ssz_append (append t) x buf = Ok (append (TWrap t) x buf).
+  Gen.arc_ssz_append (app_of t) x buf = Ok (append (TWrap t) x buf) /\
+  Gen.ref_ssz_append (app_of t) x buf = Ok (append (TWrap t) x buf).
 Proof. split; destruct t; reflexivity. Qed.
 
 Theorem gen_wrap_ssz_bytes_len t x :
-  Gen.arc_ssz_bytes_len (bytes_len t) x = Ok (bytes_len (TWrap t) x) /\
-  Gen.ref_ssz_bytes_len (bytes_len t) x = Ok (bytes_len (TWrap t) x).
+  Gen.arc_ssz_bytes_len (len_of t) x = Ok (bytes_len (TWrap t) x) /\
+  Gen.ref_ssz_bytes_len (len_of t) x = Ok (bytes_len (TWrap t) x).
 Proof. split; destruct t; reflexivity. Qed.
 
 (** ** [SszEncoder::container], [SszEncoder::append] *)
@@ -104,11 +108,11 @@ Proof. reflexivity. Qed.
 
 Theorem gen_encoder_append_item_eq {A} (f : bool) (app : A -> bytes -> bytes) s x :
   Gen.SszEncoder_offset s + len (Gen.SszEncoder_variable_bytes s) <= usize_max ->
-  omap enc_abs (Gen.encoder_append_item f app s x) = Ok (enc_append (enc_abs s) f (app x)).
+  omap enc_abs (Gen.encoder_append_item f (fun a b => Ok (app a b)) s x) = Ok (enc_append (enc_abs s) f (app x)).
 Proof.
   intro H. unfold Gen.encoder_append_item.
-  pose proof (gen_encoder_append_eq s f (fun buf => app x buf) H) as E.
-  destruct (Gen.encoder_append s f (fun buf => app x buf)) as [s'| |]; cbn [omap bind] in *; try discriminate.
+  pose proof (gen_encoder_append_eq s f (fun buf => app x buf) H) as E. cbv beta in E.
+  destruct (Gen.encoder_append s f _) as [s'| |]; cbn [omap bind] in *; try discriminate.
   exact E.
 Qed.
 
@@ -127,18 +131,18 @@ Fixpoint fits_run {A} (app : A -> bytes -> bytes) (off : N) (var : bytes) (items
   end.
 
 Lemma fixed_loop {A} (app : A -> bytes -> bytes) items : forall buf,
-  fold_m (fun buf item => Ok (app item buf)) items buf = Ok (fold_left (fun b a => a b) (map app items) buf).
+  fold_m (fun buf item => do b <- Ok (app item buf); Ok b) items buf = Ok (fold_left (fun b a => a b) (map app items) buf).
 Proof. induction items as [|x r IH]; intro buf; [reflexivity|]. cbn [fold_m bind map fold_left]. apply IH. Qed.
 
 Lemma var_loop {A} (app : A -> bytes -> bytes) items : forall s,
   fits_run app (Gen.SszEncoder_offset s) (Gen.SszEncoder_variable_bytes s) items ->
-  omap enc_abs (fold_m (fun encoder item => do st <- Gen.encoder_append_item false app encoder item; Ok st) items s)
+  omap enc_abs (fold_m (fun encoder item => do st <- Gen.encoder_append_item false (fun a b => Ok (app a b)) encoder item; Ok st) items s)
   = Ok (fold_left (fun st it => enc_append st (fst it) (snd it)) (map (fun a => (false, a)) (map app items)) (enc_abs s)).
 Proof.
   induction items as [|x r IH]; intros s H; [reflexivity|].
   cbn [fits_run] in H. destruct H as (H0 & Hr). cbn [fold_m map fold_left fst snd].
   pose proof (gen_encoder_append_item_eq false app s x H0) as E.
-  destruct (Gen.encoder_append_item false app s x) as [s'| |]; cbn [omap bind] in *; try discriminate.
+  destruct (Gen.encoder_append_item false _ s x) as [s'| |]; cbn [omap bind] in *; try discriminate.
   apply (f_equal (fun o => match o with Ok c => c | _ => enc_abs s' end)) in E. rewrite <- E. apply IH.
   assert (Eo : Gen.SszEncoder_offset s' = e_offset (enc_abs s')) by reflexivity.
   assert (Ev : Gen.SszEncoder_variable_bytes s' = e_var (enc_abs s')) by reflexivity.
@@ -148,17 +152,18 @@ Qed.
 Theorem gen_sequence_ssz_append_eq {A} (f : bool) (l : N) (app : A -> bytes -> bytes) items buf :
   (if f then l * llen items <= usize_max
    else llen items * 4 <= usize_max /\ fits_run app (llen items * 4) [] items) ->
-  Gen.sequence_ssz_append f l app items buf = Ok (seq_append f (map app items) buf).
+  Gen.sequence_ssz_append f l (fun a b => Ok (app a b)) items buf = Ok (seq_append f (map app items) buf).
 Proof.
   intro H. unfold Gen.sequence_ssz_append, seq_append. destruct f.
   - unfold usize_mul. destruct (l * llen items <=? usize_max) eqn:E; [|apply N.leb_gt in E; lia]. cbn [bind].
+    rewrite (fold_m_ext_local _ (fun buf item => do b <- Ok (app item buf); Ok b)) by reflexivity.
     rewrite (fixed_loop app items buf). reflexivity.
   - destruct H as (H4 & Hf). rewrite gen_BYTES_PER_LENGTH_OFFSET. unfold BYTES_PER_LENGTH_OFFSET.
     unfold usize_mul. destruct (llen items * 4 <=? usize_max) eqn:E; [|apply N.leb_gt in E; lia]. cbn [bind Gen.encoder_container].
     pose proof (var_loop app items {| Gen.SszEncoder_offset := llen items * 4; Gen.SszEncoder_buf := buf; Gen.SszEncoder_variable_bytes := [] |} Hf) as HL.
     match goal with |- context [fold_m ?F items ?s] =>
-      replace (fold_m F items s) with (fold_m (fun encoder item => do st <- Gen.encoder_append_item false app encoder item; Ok st) items s)
-        by (apply fold_m_ext_local; intros; destruct (Gen.encoder_append_item false app _ _); reflexivity) end.
+      replace (fold_m F items s) with (fold_m (fun encoder item => do st <- Gen.encoder_append_item false (fun a b => Ok (app a b)) encoder item; Ok st) items s)
+        by (apply fold_m_ext_local; intros; destruct (Gen.encoder_append_item false _ _ _); reflexivity) end.
     destruct (fold_m _ items _) as [s'| |]; cbn [omap bind] in *; try discriminate.
     apply (f_equal (fun o => match o with Ok c => c | _ => enc_abs s' end)) in HL.
     pose proof (gen_encoder_finalize_eq s') as HF.
@@ -177,13 +182,16 @@ Proof.
     cbn [bind]. rewrite IH by lia. f_equal. lia.
 Qed.
 
+Lemma mapM_pure_local {A B} (g : A -> B) l : mapM (fun x => Ok (g x)) l = Ok (map g l).
+Proof. induction l as [|x r IH]; cbn [mapM map bind]; [reflexivity|]. rewrite IH. reflexivity. Qed.
+
 Theorem gen_sequence_ssz_bytes_len_eq {A} (f : bool) (l : N) (bl : A -> N) items :
   (if f then l * llen items <= usize_max else sumN (map bl items) + 4 * llen items <= usize_max) ->
-  Gen.sequence_ssz_bytes_len f l bl items = Ok (seq_bytes_len f l (map bl items)).
+  Gen.sequence_ssz_bytes_len f l (fun a => Ok (bl a)) items = Ok (seq_bytes_len f l (map bl items)).
 Proof.
   intro H. unfold Gen.sequence_ssz_bytes_len, seq_bytes_len. rewrite map_length. destruct f.
   - unfold usize_mul. destruct (l * llen items <=? usize_max) eqn:E; [reflexivity | apply N.leb_gt in E; lia].
-  - unfold usize_sum. rewrite (map_ext _ bl) by reflexivity. rewrite usize_sum_ok by lia. cbn [bind].
+  - rewrite (mapM_pure_local bl items). cbn [bind]. unfold usize_sum. rewrite usize_sum_ok by lia. cbn [bind].
     rewrite gen_BYTES_PER_LENGTH_OFFSET. unfold BYTES_PER_LENGTH_OFFSET.
     unfold usize_mul. destruct (4 * llen items <=? usize_max) eqn:E; [|apply N.leb_gt in E; lia]. cbn [bind].
     unfold usize_add. destruct (0 + sumN (map bl items) + 4 * llen items <=? usize_max) eqn:E2; [|apply N.leb_gt in E2; lia].
@@ -194,17 +202,17 @@ Qed.
 Theorem gen_vec_ssz_append_eq t vs buf :
   (if e_is_fixed t then e_fixed_len t * llen vs <= usize_max
    else llen vs * 4 <= usize_max /\ fits_run (append t) (llen vs * 4) [] vs) ->
-  Gen.vec_ssz_append (e_is_fixed t) (e_fixed_len t) (append t) vs buf = Ok (append (TList t) (VList vs) buf).
+  Gen.vec_ssz_append (e_is_fixed t) (e_fixed_len t) (app_of t) vs buf = Ok (append (TList t) (VList vs) buf).
 Proof.
-  intro H. unfold Gen.vec_ssz_append. rewrite gen_sequence_ssz_append_eq by exact H. reflexivity.
+  intro H. unfold Gen.vec_ssz_append, app_of. rewrite gen_sequence_ssz_append_eq by exact H. reflexivity.
 Qed.
 
 Theorem gen_vec_ssz_bytes_len_eq t vs :
   (if e_is_fixed t then e_fixed_len t * llen vs <= usize_max
    else sumN (map (bytes_len t) vs) + 4 * llen vs <= usize_max) ->
-  Gen.vec_ssz_bytes_len (e_is_fixed t) (e_fixed_len t) (bytes_len t) vs = Ok (bytes_len (TList t) (VList vs)).
+  Gen.vec_ssz_bytes_len (e_is_fixed t) (e_fixed_len t) (len_of t) vs = Ok (bytes_len (TList t) (VList vs)).
 Proof.
-  intro H. unfold Gen.vec_ssz_bytes_len. rewrite gen_sequence_ssz_bytes_len_eq by exact H. reflexivity.
+  intro H. unfold Gen.vec_ssz_bytes_len, len_of. rewrite gen_sequence_ssz_bytes_len_eq by exact H. reflexivity.
 Qed.
 
 Print Assumptions gen_uint_ssz_append.
